@@ -7,6 +7,8 @@ mir, dt = build.dump_mir()
 print('MIR dump ok (%d lines, %.1fs)' % (mir[0].count('\n'), dt))
 path, dt = build.build_native()
 print('native replay ok %s (%.1fs)' % (path, dt))
+path, dt = build.build_native(release=True)
+print('native replay (release) ok %s (%.1fs)' % (path, dt))
 import subprocess, time
 t = time.time()
 p = subprocess.run(['cargo', 'build', '--offline', '-p', 'adf-bdd-bin'], cwd=build.REPO, env=dict(build.ENV, CARGO_TARGET_DIR=os.path.join(build.CACHE, 'target-cli'), RUSTFLAGS='-Awarnings'),
